@@ -491,7 +491,17 @@ def monitor(script):
                     continue
                 hh, tt, ww, linked = int(f[2]), f[3], int(f[4]), f[5]
                 if linked != "1":
-                    m.hit("C12:unlinked", f"`{op}`: after {k} writes the loaded best chain (tip {tt} height {hh}) is not linked from genesis")
+                    evs_w = parse_list(o.get("ev", "[]"))[:int(k)]
+                    p0 = parse_list(o.get("p", "[]"))[0].split(":")
+                    stale = len(p0) >= 5 and (f[2], f[3], f[4]) == (p0[2], p0[3], p0[4])
+                    if (stale and any(x.startswith("M") for x in evs_w) and not any(x.startswith("B") for x in evs_w)
+                            and (str(tip["tip"]) != tt)):
+                        # main-chain files of the NEW best chain next to the root branch file of the OLD one
+                        m.hit("C12:main-files-ahead-of-root-branch",
+                              f"`{op}`: after {k} writes (main files written, root branch file not yet) the load reports the previously stored tip {tt} "
+                              f"(height {hh}) with history served from the new chain's files: not linked from genesis")
+                    else:
+                        m.hit("C12:unlinked", f"`{op}`: after {k} writes the loaded best chain (tip {tt} height {hh}) is not linked from genesis")
                 if base is not None and ww < base:
                     m.hit("C12:work-regressed", f"`{op}`: after {k} writes the loaded tip work {ww} < work at the last completed Save {base}")
                 if tt != "?" and int(tt) in defs:
@@ -600,7 +610,10 @@ def monitor(script):
             ever_marked.add(i)
             saved_tip = None   # the work at the last Save may legitimately be lost to the mark
             hi = height(i)
-            if o.get("r", "ok") != "ok" or (hi is not None and i in accepted and tip["h"] - hi >= min_depth - 1):
+            # at or below the in-memory window: the window is relative to the highest tip a maintenance operation saw
+            # (prune_floor), not to the present tip, which earlier marks may have lowered
+            if o.get("r", "ok") != "ok" or (hi is not None and i in accepted and
+                                            (tip["h"] - hi >= min_depth - 1 or hi <= prune_floor)):
                 deep_marks.add(i)
             # the marked header and everything built on it leave the accepted set
             gone = {x for x in accepted if height(i) is not None and is_anc(i, x)}
